@@ -204,11 +204,21 @@ func prepare(needRace, needPlain bool) *build {
 		die("copy %s: %v", *flagRepo, err)
 	}
 	b := &build{sites: filepath.Join(scratch, "sites.json")}
-	b.corpus = fmt.Sprintf("repo=%s,repo-ir=%s,verif=%s", filepath.Join(tree, "asm", "testdata"), filepath.Join(tree, "ir", "testdata"), filepath.Join(root, "corpus"))
+	// The corpus is snapshotted too, so that one run sees one corpus even if
+	// /verif/corpus is edited while it is going.
+	corpusCopy := filepath.Join(scratch, "corpus")
+	if err := copyTree(filepath.Join(root, "corpus"), corpusCopy, nil); err != nil {
+		die("copy corpus: %v", err)
+	}
+	largeCopy := filepath.Join(scratch, "corpus-large")
+	if err := copyTree(filepath.Join(root, "corpus-large"), largeCopy, nil); err != nil {
+		die("copy corpus-large: %v", err)
+	}
+	b.corpus = fmt.Sprintf("repo=%s,repo-ir=%s,verif=%s", filepath.Join(tree, "asm", "testdata"), filepath.Join(tree, "ir", "testdata"), corpusCopy)
 	// A 145 KB module (longer than any plausible fixed-size read buffer) for the
 	// checks that can afford it.
 	if *flagProperty == "C12" || (*flagProperty == "C19" && tier == "thorough") || *flagReplay != "" {
-		b.corpus += ",large=" + filepath.Join(root, "corpus-large")
+		b.corpus += ",large=" + largeCopy
 	}
 
 	// Instrument, falling back to fewer rewrite classes if the result does not
@@ -535,9 +545,12 @@ func fanOut(a *agg, bin string, race bool, baseArgs []string, totalRuns int64, w
 		go func(i int) {
 			defer wg.Done()
 			from := int64(0)
-			for restarts := 0; restarts < 200; restarts++ {
+			for restarts := 0; restarts < 5000; restarts++ {
 				args := append([]string{}, baseArgs...)
-				args = append(args, "-shard", fmt.Sprintf("%d/%d", i, workers), "-runs", strconv.FormatInt(totalRuns, 10), "-from", strconv.FormatInt(from, 10))
+				shard := fmt.Sprintf("%d/%d", i, workers)
+				progress := filepath.Join(scratch, fmt.Sprintf("progress-%d", i))
+				os.Remove(progress)
+				args = append(args, "-shard", shard, "-runs", strconv.FormatInt(totalRuns, 10), "-from", strconv.FormatInt(from, 10), "-progress", progress)
 				res := runWorker(workerJob{bin: bin, race: race, procs: procs, args: args})
 				a.mu.Lock()
 				a.procs++
@@ -549,7 +562,12 @@ func fanOut(a *agg, bin string, race bool, baseArgs []string, totalRuns int64, w
 					case "fail":
 						fr := lr.failRec
 						a.mu.Lock()
-						a.fails = append(a.fails, &fr)
+						if strings.HasPrefix(fr.Class, "harness") {
+							// A fault of the machinery itself is never a verdict.
+							a.harness = append(a.harness, fr.Class+" "+fr.Sig+": "+firstLines(fr.Detail, 8))
+						} else {
+							a.fails = append(a.fails, &fr)
+						}
 						a.mu.Unlock()
 					case "summary":
 						sum = lr.Summary
@@ -569,6 +587,17 @@ func fanOut(a *agg, bin string, race bool, baseArgs []string, totalRuns int64, w
 					return
 				}
 				if sum == nil || res.exitCode != 0 {
+					// The worker process died (a fatal error of the Go runtime inside the
+					// code under test, e.g. stack overflow or concurrent map writes, or a
+					// panic on a goroutine outside the harness's reach). If the run that was
+					// in progress kills a fresh process again, that is a crash of the code
+					// under test with a replayable cause; otherwise it is harness trouble.
+					if fr := crashReplay(bin, race, procs, baseArgs, shard, from, progress, res); fr != nil {
+						a.mu.Lock()
+						a.fails = append(a.fails, fr)
+						a.mu.Unlock()
+						return
+					}
 					a.mu.Lock()
 					a.harness = append(a.harness, fmt.Sprintf("worker %d exit %d without summary: %s %s", i, res.exitCode, firstLines(res.stderr, 30), strings.Join(res.raw, "\n")))
 					a.mu.Unlock()
@@ -589,6 +618,62 @@ func fanOut(a *agg, bin string, race bool, baseArgs []string, totalRuns int64, w
 		}(i)
 	}
 	wg.Wait()
+}
+
+// crashReplay re-executes, in a fresh process, the run during which a worker
+// died (first alone, then with the worker's whole history); if the process dies
+// again it returns a failure of class "crash" whose replay file is that run.
+func crashReplay(bin string, race bool, procs int, baseArgs []string, shard string, from int64, progress string, died *workerResult) *failRec {
+	b, err := os.ReadFile(progress)
+	if err != nil {
+		return nil
+	}
+	idx, err := strconv.ParseInt(strings.TrimSpace(string(b)), 10, 64)
+	if err != nil {
+		return nil
+	}
+	sig := crashSignature(died.stderr)
+	if sig == "" {
+		return nil
+	}
+	for _, start := range []int64{idx, from} {
+		args := append([]string{}, baseArgs...)
+		args = append(args, "-shard", shard, "-from", strconv.FormatInt(start, 10), "-runs", strconv.FormatInt(idx+1, 10))
+		res := runWorker(workerJob{bin: bin, race: race, procs: procs, args: args, timeout: 20 * time.Minute})
+		if res.exitCode != 0 && crashSignature(res.stderr) == sig {
+			// keep only what replays: the worker arguments without corpus/sites/ref paths
+			var keep []string
+			for k := 0; k < len(args); k++ {
+				switch args[k] {
+				case "-corpus", "-sites", "-ref", "-progress":
+					k++
+					continue
+				case "-libgo":
+					continue
+				}
+				keep = append(keep, args[k])
+			}
+			return &failRec{Class: "crash", Sig: sig, Detail: "the worker process died during this run (and dies again when the run is repeated in a fresh process):\n" + firstLines(res.stderr, 25), race: race, sequence: keep, Replay: json.RawMessage(`{"note":"sequence replay: re-executes the run(s) named in worker_args"}`)}
+		}
+		if start == from {
+			break
+		}
+	}
+	return nil
+}
+
+// crashSignature extracts the first line of a Go runtime death notice.
+func crashSignature(stderr string) string {
+	for _, l := range strings.Split(stderr, "\n") {
+		l = strings.TrimSpace(l)
+		if strings.HasPrefix(l, "fatal error:") || strings.HasPrefix(l, "panic:") {
+			if len(l) > 160 {
+				l = l[:160]
+			}
+			return l
+		}
+	}
+	return ""
 }
 
 func numWorkers() int {
@@ -811,6 +896,13 @@ func fileExists(p string) bool {
 
 // ensureRef makes the C12 reference table if the replayed property needs one.
 func ensureRef(prop string, b *build) string {
+	if prop == "C13" {
+		raw, herr := makeRefRaw(b.race, true, b, specs["C13"])
+		if herr != "" {
+			return herr
+		}
+		return errString(os.WriteFile(filepath.Join(scratch, "ref.json"), raw, 0o644))
+	}
 	if prop != "C12" {
 		return ""
 	}
@@ -898,6 +990,9 @@ func raceKey(sig string) string {
 // if the same violation class and signature persist.
 
 func shrink(spec *propSpec, b *build, fr *failRec) *failRec {
+	if fr.sequence != nil {
+		return fr // already a verified sequence replay (crash)
+	}
 	cur := fr
 	deadline := time.Now().Add(spec.shrinkBudget())
 	tmpDir := filepath.Join(scratch, "shrink")
@@ -1036,6 +1131,11 @@ func runSequence(b *build, race bool, args []string) []*failRec {
 		if res.lines[k].T == "fail" {
 			fr := res.lines[k].failRec
 			out = append(out, &fr)
+		}
+	}
+	if res.exitCode != 0 {
+		if sig := crashSignature(res.stderr); sig != "" {
+			out = append(out, &failRec{Class: "crash", Sig: sig, Detail: firstLines(res.stderr, 25)})
 		}
 	}
 	return out
